@@ -51,9 +51,10 @@ class Impl:
             if k == 'empty':
                 self.store = ts_lib.TokenStore()
             elif k == 'from_tokens':
-                self.src_list = [T(i) for i in op[1]]          # the caller keeps this list object
-                self.src_copy = list(self.src_list)
-                self.store = ts_lib.TokenStore.from_tokens(self.src_list)
+                lst = [T(i) for i in op[1]]
+                self.store = ts_lib.TokenStore.from_tokens(lst)
+                self.src_list = lst                            # the caller keeps this list object
+                self.src_copy = list(lst)
             elif k == 'ins_after':
                 self.store.insert_after(T(op[1]), [T(i) for i in op[2]])
             elif k == 'ins_before':
@@ -98,7 +99,17 @@ class Impl:
         obs.append(self._enc(lambda: st.get_first(), lambda v: [self.tid(v)]))
         obs.append(self._enc(lambda: st.get_last(), lambda v: [self.tid(v)]))
         obs.append([self.tid(t) for t in st])
-        return {'res': res, 'blocks': blocks, 'handles': handles, 'sizes': sizes, 'len': len(st), 'obs': obs}
+        # sub-range probes (any two tokens: in order, reversed, same, detached) for the model to answer
+        iters = []
+        n = len(self.toks) - 1
+        if n:
+            rr = random.Random(len(st) * 1000003 + n * 7919 + res)
+            for _ in range(3):
+                a, b = rr.randrange(1, n + 1), rr.randrange(1, n + 1)
+                iters.append((a, b, self._enc(lambda: list(st.iter(self.toks[a], self.toks[b])),
+                                              lambda v: [self.tid(t) for t in v])))
+        return {'res': res, 'blocks': blocks, 'handles': handles, 'sizes': sizes, 'len': len(st), 'obs': obs,
+                'iters': iters}
 
 
 # ---- Coq rendering ------------------------------------------------------------------------------
@@ -130,7 +141,8 @@ def coq_dump(d: dict) -> str:
     handles = coq_list(coq_opt(None if h is None else zz(h)) for h in d['handles'])
     sizes = coq_list(zz(s) for s in d['sizes'])
     obs = coq_list(coq_zlist(o) for o in d['obs'])
-    return f'(mkdump {coq_z(d["res"])} {blocks} {handles} {sizes} {coq_z(d["len"])} {obs})'
+    iters = coq_list(f'({coq_z(a)}, {coq_z(b)}, {coq_zlist(r)})' for a, b, r in d.get('iters', []))
+    return f'(mkdump {coq_z(d["res"])} {blocks} {handles} {sizes} {coq_z(d["len"])} {obs} {iters})'
 
 
 def coq_case(lf: int, texts: list[str], steps: list[tuple[Any, dict]]) -> str:
@@ -191,6 +203,12 @@ def gen_history(rng: random.Random, lf: int, n_ops: int, n_tok: int, invalid_rat
                 else:
                     ref_ = rng.choice(live) if live and rng.random() < 0.7 else None
                     ops.append((rng.choice(['ins_after', 'ins_before']), ref_, [free[-1], free[-1]]))
+            elif c < 0.93 and (len(free) >= 2 or live):
+                # from_tokens with a token listed twice / a token that is in a store: refused, nothing changes
+                if len(free) >= 2 and (not live or rng.random() < 0.6):
+                    ops.append(('from_tokens', [free[-1], free[-2], free[-1]] if rng.random() < 0.5 else [free[-1], free[-1]]))
+                else:
+                    ops.append(('from_tokens', ([free[-1]] if free else []) + [rng.choice(live)]))
             elif c < 0.96 and len(live) >= 3:
                 # reversed range: del_end at least two tokens before ref (the case "del_end is the token just
                 # before ref" is left out: the code's answer to it depends on the block layout, see C07.v)
@@ -338,7 +356,10 @@ def run_history(lf: int, texts: list[str], ops: list) -> tuple[list[tuple[Any, d
         if k == 'empty':
             ref = []
         elif k == 'from_tokens':
-            ref = list(op[1])
+            if len(set(op[1])) != len(op[1]) or any(t in ref for t in op[1]):
+                exp_err = True                          # listed twice / already in a store: no new store
+            else:
+                ref = list(op[1])
         elif k in ('ins_after', 'ins_before'):
             r_, new = op[1], op[2]
             if r_ is not None and r_ not in ref:
@@ -486,7 +507,7 @@ def run_history(lf: int, texts: list[str], ops: list) -> tuple[list[tuple[Any, d
             rr = random.Random(n * 7919 + len(ref))
             for _ in range(3):
                 i = rr.randrange(len(ref))
-                j = rr.randrange(i, len(ref))
+                j = rr.randrange(i, len(ref)) if rr.random() < 0.75 else rr.randrange(len(ref))   # also start after end
                 got = [impl.tid(t) for t in impl.store.iter(impl.toks[ref[i]], impl.toks[ref[j]])]
                 if got != ref[i:j + 1]:
                     fails.append({'sig': 'C07:iter-range', 'what': f'iter({ref[i]},{ref[j]}) = {got} != {ref[i:j+1]}',
